@@ -41,7 +41,9 @@ def setup(prog, ov=None, text=None, validate=True, variant="A", assemble=False):
         return "skipped:input-rejected:" + o[1], s
     s.c = o[1]
     try:
-        s.core = M.core_from_ir(s.c)
+        # the reference is read from the circuit the parser made; a circuit put together through the builder is judged
+        # against the PROGRAM it was meant to be (reading it back would take a builder's mistake for the intention)
+        s.core = M.core_from_sx(prog) if (assemble == "builder" or (isinstance(assemble, tuple) and assemble[0] == "builder")) else M.core_from_ir(s.c)
         if validate:
             M.validate(s.core, ov or {})
         s.tree = M.full_meaning(s.core, env=ov or {})
